@@ -1828,7 +1828,9 @@ func (patternSelf KindPatternDef) Matches(value interface{}) bool {
 // Matches Match the given value by the pattern
 func (patternSelf CompTypePatternDef) Matches(value interface{}) bool {
 	if Maybe.Just(value).IsPresent() && reflect.TypeOf(value).Kind() == reflect.TypeOf(CompData{}).Kind() {
-		return MatchCompType(patternSelf.compType, (value).(CompData))
+		if compData, ok := (value).(CompData); ok {
+			return MatchCompType(patternSelf.compType, compData)
+		}
 	}
 
 	return patternSelf.compType.Matches(value)
